@@ -42,7 +42,7 @@ META = {
             "NoResults (with all errors) exactly if no item, a single NoServiceConfigured exactly if no service, nothing after the "
             "end.  Each behaviour is forced on the real stream by virtual-time delays and must be reproduced yield by yield; with "
             "all outputs ready at once the real stream must produce one of the model's behaviours.",
-    "note": "Bounded: <= 3 services, scripts <= 2 outputs (3 services) / <= 3 outputs (2 services); the stream is polled 3 more "
+    "note": "Bounded: quick <= 3 services x 1 output and 2 services x <= 2 outputs; thorough 3 x <= 2 and 2 x <= 3; the stream is polled 3 more "
             "times after its end.  'Carrying all errors' is read as: the same errors, in the order in which they were yielded.",
     "design_ref": "§6 C29",
 }
@@ -183,7 +183,7 @@ def run(ctx):
     # anti-vacuity: a design that reports NoResults although items were yielded is refuted
     ctx.tlc("lookup", "AddressLookup", cfg="AddressLookup_mc.cfg", mode="mc", workers=2, coverage=False, timeout=900,
             constants={"MaxSvcs": 2, "MaxLen": 2, "EarlyTerminal": "TRUE", "AllowDrop": "FALSE"}, expect_violation="TerminalRule")
-    bounds = ctx.pick([(3, 1), (2, 3)], [(3, 2), (2, 3)])
+    bounds = ctx.pick([(3, 1), (2, 2)], [(3, 2), (2, 3)])
     behaviours = []
     for (ns, ln) in bounds:
         res = ctx.tlc("lookup", "AddressLookup", mode="gen", timeout=3000,
